@@ -362,6 +362,82 @@ def r3_5(F, R):
         R.violation("R3.5", "unsafe-inventory", "token::lexer has %d unsafe blocks, audited: 1" % len(ub), None)
 
 
+def r3_6(F, R):
+    from ..dataflow import Flow
+    R.rule("R3.6", "unit discipline of trace keys: one key per character — every argument of KeyRange::advance_by in the raw lexer derives from a "
+                   "character count (Chars::count, or a counter of single characters), never from a byte length or byte offset (`len()`, `pos`)")
+    n = 0
+    for fn in F.fns.values():
+        if not (fn.impl and fn.impl.get("self_adt") == "texlang::token::lexer::RawLexer"):
+            continue
+        flow = None
+        for bi, t in fn.calls():
+            if (callee_generic(t) or "") != "texlang::token::trace::KeyRange::advance_by":
+                continue
+            n += 1
+            flow = flow or Flow(fn)
+            og = flow.operand_origins(t["args"][1])
+            calls = {strip_generics(v).split("::")[-1] for k, v in og if k == "call" and v}
+            fields = {v for k, v in og if k == "field"}
+            inst = "%s@advance_by#%d" % (strip_generics(fn.name), n)
+            byteish = ("len" in calls) or ("pos" in fields) or ("next_line" in fields) or ("len_utf8" in calls)
+            charish = ("count" in calls) or ("num_trimmed_right" in fields)
+            if byteish and "count" not in calls:
+                R.violation("R3.6", inst, "%s advances the trace keys by a byte quantity (origins: calls %s, fields %s): after non-ASCII text every later token of the "
+                            "file is traced to the wrong column or line" % (fn.name, sorted(calls & {"len", "len_utf8"}), sorted(fields & {"pos", "next_line"})), fn.loc(t))
+            elif charish:
+                R.ok("R3.6", inst, "character count (%s)" % ("Chars::count" if "count" in calls else "num_trimmed_right"), fn.loc(t), how="def-use")
+            else:
+                R.violation("R3.6", inst, "%s advances the trace keys by a quantity that is not a character count (origins: %s)" % (fn.name, sorted(calls)[:5]), fn.loc(t))
+    R.floor("R3.6", "advance_by call sites", n, 3)
+
+
+def r3_7(F, R):
+    R.rule("R3.7", "line trimming looks at characters only through equality with ' ' and '\\n' (TeX §31 removes trailing spaces, nothing else): every "
+                   "predicate applied to a source character in RawLexer::start_new_line is Eq/Ne with one of those two constants, or len_utf8")
+    fn = _one(F, "texlang::token::lexer::RawLexer::start_new_line")
+    char_locals = {i for i, (ty, nm) in enumerate(fn.locals) if ty == "char"}
+    consts = set()
+    bad = []
+    for bi, b in enumerate(fn.blocks):
+        for st in b["s"]:
+            if st["k"] == "=" and st["rv"]["k"] == "bin":
+                rv = st["rv"]
+                pa, pb = op_place(rv["a"]), op_place(rv["b"])
+                ca, cb = rv["a"].get("c", {}), rv["b"].get("c", {})
+                involved = (pa is not None and pa["l"] in char_locals) or (pb is not None and pb["l"] in char_locals)
+                if not involved:
+                    continue
+                if rv["op"] in ("Eq", "Ne"):
+                    for c in (ca, cb):
+                        if c.get("ty") == "char" and "int" in c:
+                            consts.add(c["int"])
+                else:
+                    bad.append(("%s on a char" % rv["op"], fn.loc(st)))
+        t = b["t"]
+        if t["k"] == "call":
+            for a in t["args"]:
+                p = op_place(a)
+                if p is not None and not p["p"] and p["l"] in char_locals:
+                    n = strip_generics(callee_name(t) or "").split("::")[-1]
+                    if n not in ("len_utf8", "push"):
+                        bad.append((n, fn.loc(t)))
+        if t["k"] == "switch":
+            p = op_place(t["op"])
+            if p is not None and not p["p"] and p["l"] in char_locals:
+                for v, _ in t["ts"]:
+                    consts.add(v)
+    loc = "%s:%d" % (fn.file, fn.line)
+    if bad:
+        for what, l in bad:
+            R.violation("R3.7", "start_new_line/" + what, "start_new_line classifies source characters with `%s`: characters other than the space are trimmed or kept "
+                        "differently from TeX's line-end rule" % what, l)
+    elif consts == {32, 10}:
+        R.ok("R3.7", "start_new_line", "characters compared only with ' ' and '\\n'", loc, how="predicate-set")
+    else:
+        R.violation("R3.7", "start_new_line/constants", "start_new_line compares source characters with %s; TeX's rule only distinguishes ' ' (32) and the newline (10)" % sorted(consts), loc)
+
+
 def _one(F, name, exact=True):
     c = [f for f in F.fns.values() if strip_generics(f.name) == strip_generics(name)]
     if len(c) != 1:
@@ -375,6 +451,8 @@ def run(F, R, tier):
     r3_3(F, R)
     r3_4(F, R)
     r3_5(F, R)
+    r3_6(F, R)
+    r3_7(F, R)
     R.extra["exhaustive"] = True
     return ("Static analysis: finite-domain specialisation of Lexer::next over all 16x3 (category, state) cells, of read_control_sequence over "
             "16 categories and of CatCode::try_from over 256 bytes, compared with tables transcribed from TeX: The Program §§207,343-355; "
